@@ -46,3 +46,33 @@ Theorem C16_compatible_operands_are_composed :
   forall hp uid, exists hp' d, compose hp a c None uid = (hp', d, Ok tt).
 Proof. exact compose_succeeds. Qed.
 Print Assumptions C16_compatible_operands_are_composed.
+
+(* THE ATTRIBUTES of the result, whenever a.compose(c) succeeds (operands whose dictionaries belong to other owners
+   than the new complex -- every two distinct complexes, C09): every simplex of the result has a dictionary of the
+   result's own; it holds, for a simplex of both operands, a's dictionary updated with c's (c wins on a shared key:
+   ComposeAttrs.merge), for a simplex of c only what c's dictionary holds, for a simplex of a only what a's holds;
+   no dictionary of another owner -- in particular none of the operands' -- is written *)
+From SV Require ComposeAttrs.
+Theorem C16_attributes_of_the_composition :
+  forall a c uid hp, pinv a -> pinv c ->
+  (forall s h, assoc s (r_attr a) = Some h -> fst h <> uid) ->
+  (forall s h, assoc s (r_attr c) = Some h -> fst h <> uid) -> uid <> 0 ->
+  forall hp' d, compose hp a c None uid = (hp', d, Ok tt) ->
+  (forall s, containsSimplex d s = true ->
+     exists h', assoc s (r_attr d) = Some h' /\ fst h' = uid /\
+       heap_get hp' h' =
+         if containsSimplex c s then
+           (if containsSimplex a s
+            then ComposeAttrs.merge (heap_get hp (ComposeAttrs.cell a s)) (heap_get hp (ComposeAttrs.cell c s))
+            else heap_get hp (ComposeAttrs.cell c s))
+         else heap_get hp (ComposeAttrs.cell a s)) /\
+  (forall h0, fst h0 <> uid -> heap_get hp' h0 = heap_get hp h0).
+Proof. exact ComposeAttrs.compose_attrs. Qed.
+Print Assumptions C16_attributes_of_the_composition.
+(* the merge: c's entries are written over a's -- reading key k gives the (last) entry for k in c's dictionary if
+   there is one, else a's entry *)
+Theorem C16_merge_is_update :
+  forall dc da k, dict_get (ComposeAttrs.merge da dc) k =
+                  match dict_get (rev dc) k with Some v => Some v | None => dict_get da k end.
+Proof. exact ComposeAttrs.merge_spec. Qed.
+Print Assumptions C16_merge_is_update.
